@@ -299,7 +299,10 @@ func oracleC03(t *Trace, v *vset) {
 			}
 			// r3: no launch once the tolerance is exceeded (launcher model over the
 			// applied terminal writes and the arrival of each sequence's first write)
-			if tol >= 0 {
+			// With scheduling points inside the engine (Policy.Yields) a goroutine can be
+			// held between learning of its sequence's failure and counting it, which no
+			// event of the trace marks: the launcher model is only exact without them.
+			if tol >= 0 && !t.Res.Spec.Policy.Yields {
 				// event at which the engine learnt that the sequence's Failed state was
 				// stored (the answer of the write; the write itself when writes take no time)
 				var failSeqs []int
